@@ -69,8 +69,12 @@ def gen(t, tier):
           'ocean': bool(backend.get('link')) or bool(t.chance(0.2))}
     nops = t.randint(6, 18 if tier == 'quick' else 30)
     for _ in range(nops):
-        k = t.weighted([('req', 8), ('adv', 5), ('thr', 3), ('touch', 1), ('upfail', 1), ('seed', 1)])
-        if k == 'req':
+        k = t.weighted([('req', 8), ('adv', 5), ('thr', 3), ('touch', 1), ('upfail', 1), ('seed', 1), ('req2', 3)])
+        if k == 'req2':
+            # two (or three) concurrent requests for the same or neighbouring tiles
+            c = t.pick(pool)
+            sc['ops'].append(['req2', [[c], [t.pick([c, c, t.pick(pool)])]] + ([[c]] if t.chance(0.3) else [])])
+        elif k == 'req':
             m = t.randint(1, 2)
             cs = []
             for _ in range(m):
@@ -292,6 +296,8 @@ def run(sc, tape):
                 upfail[0] = op[1]
             elif k == 'req':
                 _request(tm, [tuple(c) for c in op[1]], what, pool)
+            elif k == 'req2':
+                _concurrent(tm, [[tuple(c) for c in r] for r in op[1]], what, pool)
             elif k == 'seed':
                 if not upfail[0]:       # with a dead upstream the seeder only backs off (100 x 600 s) and gives up
                     _seed(op[1], what, all_level)
@@ -386,6 +392,72 @@ def run(sc, tape):
             if c in must_not and g != before[c][0]:
                 raise Bad('fresh-tile-refetched', '%s: tile %s is newer than the threshold but generation changed %d -> %d' % (
                     what, c, before[c][0], g))
+
+    def _concurrent(tm, reqs, what, pool):
+        """several requests at once (threads sharing the TileManager): a tile refreshed by one of them is newer than
+        the threshold for the others and must not be fetched again"""
+        thr = threshold_now()
+        before = _snapshot(tm, pool)
+        n0 = len(shared['log'])
+        results = {}
+
+        def client(i, coords):
+            def fn():
+                try:
+                    results[i] = ('ok', tm.load_tile_coords(coords))
+                except SourceError as ex:
+                    results[i] = ('err', ex)
+            return fn
+        tasks = [sched.spawn(client(i, r), 'conc%d' % i, w.main_proc) for i, r in enumerate(reqs)]
+        sched.wait_until(lambda: all(t.state == 3 for t in tasks), 'wait-clients')
+        for t in tasks:
+            if t.exc is not None:
+                raise t.exc
+        thr2 = threshold_now()
+        calls = shared['log'][n0:]
+        after = _snapshot(tm, pool)
+        probes['concurrent_request_ops'] = probes.get('concurrent_request_ops', 0) + 1
+        if thr == 'error' or thr2 == 'error' or upfail[0]:
+            return
+        t = state['thr']
+        short_rel = t is not None and t['kind'] == 'rel' and t['n'] * (60 if t['unit'] == 'minutes' else 1) < 5
+        wanted = set(c for r in reqs for c in r)
+        for c in wanted:
+            b = before[c]
+            n_ok = sum(1 for e in calls if e['ok'] and U.covers(e['bbox'], c))
+            if b is None or thr is None:
+                cl = 'stale' if b is None else 'fresh'
+            else:
+                thr_ = (min(thr[0], thr2[0]), max(thr[1], thr2[1]))
+                cl = classify(b[1], thr_)
+            if cl == 'fresh' and n_ok:
+                raise Bad('fresh-tile-refetched', '%s: tile %s is newer than the threshold but the upstream was asked for it' % (what, c))
+            if cl == 'stale':
+                decided[0] += 1
+                if n_ok == 0:
+                    raise Bad('stale-tile-not-refreshed', '%s: tile %s was stale/missing but no request fetched it' % (what, c))
+                first_done = min(e['t1'] for e in calls if e['ok'] and U.covers(e['bbox'], c)) if n_ok else None
+                # the second fetch is only unjustified if the tile written by the first one is newer than the threshold
+                # (with a threshold in the future every write is stale again at once)
+                rewritten_fresh = thr is not None and n_ok and \
+                    classify(first_done, (min(thr[0], thr2[0]), max(thr[1], thr2[1]))) == 'fresh' and \
+                    classify(first_done + 1.0, (min(thr[0], thr2[0]), max(thr[1], thr2[1]))) == 'fresh'
+                if n_ok > 1 and not short_rel and (thr is None or rewritten_fresh):
+                    raise Bad('refreshed-tile-refetched', '%s: tile %s was refreshed by one of the concurrent requests (now newer '
+                              'than the threshold) and fetched from the upstream again by another one: %d successful fetches by %s' % (
+                                  what, c, n_ok, [e['task'] for e in calls if e['ok'] and U.covers(e['bbox'], c)]))
+            elif cl == 'unspecified':
+                unspecified[0] += 1
+        for i, r in enumerate(reqs):
+            kind, val = results[i]
+            if kind != 'ok':
+                raise Bad('spurious-error', '%s: request %d raised %r although the upstream did not fail' % (what, i, val))
+            for c, tile in zip(r, val):
+                if tile.source is None:
+                    raise Bad('no-image', '%s: no image served for %s' % (what, c))
+                ok, g, msg = U.check_tile_image(tile.source.as_image(), c, ocean=ocean)
+                if not ok:
+                    raise Bad('wrong-image', '%s: wrong image served for %s: %s' % (what, c, msg))
 
     def _seed(spec, what, all_level):
         T = float(int(clock.now) + spec['offset'])
